@@ -37,4 +37,5 @@ EXTRAS = [
     lambda rep, fb, tier: __import__("vf.rules.pyrules4", fromlist=["x"]).rule_py_depth_relative_wrap(rep),
     lambda rep, fb, tier: __import__("vf.rules.lints3", fromlist=["x"]).rule_range_same_base(rep, fb),
     lambda rep, fb, tier: __import__("vf.rules.pyrules5", fromlist=["x"]).rule_py_derived_node_mix(rep),
+    lambda rep, fb, tier: __import__("vf.rules.pyrules5", fromlist=["x"]).rule_py_shortcut_agrees(rep),
 ]
